@@ -4,3 +4,4 @@
   changed kernel reaches only the properties listed here.
 -/
 import VK.Props.C08Scored
+import VK.Props.C08Random
